@@ -166,6 +166,10 @@ func (u *Unmarshaler) fillSlice(fieldType reflect.Type, value reflect.Value, map
 	dereffedBaseType := Deref(baseType)
 	dereffedBaseKind := dereffedBaseType.Kind()
 	refValue := reflect.ValueOf(mapValue)
+	if refValue.Kind() != reflect.Slice {
+		return errTypeMismatch
+	}
+
 	if refValue.IsNil() {
 		return nil
 	}
@@ -186,8 +190,13 @@ func (u *Unmarshaler) fillSlice(fieldType reflect.Type, value reflect.Value, map
 		valid = true
 		switch dereffedBaseKind {
 		case reflect.Struct:
+			ithMap, ok := ithValue.(map[string]any)
+			if !ok {
+				return errTypeMismatch
+			}
+
 			target := reflect.New(dereffedBaseType)
-			if err := u.Unmarshal(ithValue.(map[string]any), target.Interface()); err != nil {
+			if err := u.Unmarshal(ithMap, target.Interface()); err != nil {
 				return err
 			}
 
@@ -230,11 +239,14 @@ func (u *Unmarshaler) fillSliceFromString(fieldType reflect.Type, value reflect.
 		return errUnsupportedType
 	}
 
-	baseFieldType := Deref(fieldType.Elem())
-	baseFieldKind := baseFieldType.Kind()
-	conv := reflect.MakeSlice(reflect.SliceOf(baseFieldType), len(slice), cap(slice))
+	baseFieldKind := Deref(fieldType.Elem()).Kind()
+	conv := reflect.MakeSlice(reflect.SliceOf(fieldType.Elem()), len(slice), cap(slice))
 
 	for i := 0; i < len(slice); i++ {
+		if slice[i] == nil {
+			continue
+		}
+
 		if err := u.fillSliceValue(conv, i, baseFieldKind, slice[i]); err != nil {
 			return err
 		}
@@ -253,13 +265,17 @@ func (u *Unmarshaler) fillSliceValue(slice reflect.Value, index int,
 	case string:
 		return setValue(baseKind, ithVal, v)
 	case map[string]any:
+		if ithVal.Kind() != reflect.Map {
+			return errTypeMismatch
+		}
+
 		return u.fillMap(ithVal.Type(), ithVal, value)
 	default:
 		// don't need to consider the difference between int, int8, int16, int32, int64,
 		// uint, uint8, uint16, uint32, uint64, because they're handled as json.Number.
 		if ithVal.Kind() == reflect.Ptr {
 			baseType := Deref(ithVal.Type())
-			if baseType.Kind() != reflect.TypeOf(value).Kind() {
+			if !reflect.TypeOf(value).AssignableTo(baseType) {
 				return errTypeMismatch
 			}
 
@@ -269,7 +285,7 @@ func (u *Unmarshaler) fillSliceValue(slice reflect.Value, index int,
 			return nil
 		}
 
-		if ithVal.Kind() != reflect.TypeOf(value).Kind() {
+		if !reflect.TypeOf(value).AssignableTo(ithVal.Type()) {
 			return errTypeMismatch
 		}
 
@@ -308,6 +324,10 @@ func (u *Unmarshaler) generateMap(keyType, elemType reflect.Type, mapValue any) 
 	}
 
 	refValue := reflect.ValueOf(mapValue)
+	if refValue.Kind() != reflect.Map || !refValue.Type().Key().AssignableTo(keyType) {
+		return emptyValue, errTypeMismatch
+	}
+
 	targetValue := reflect.MakeMapWithSize(mapType, refValue.Len())
 	fieldElemKind := elemType.Kind()
 	dereffedElemType := Deref(elemType)
@@ -354,32 +374,36 @@ func (u *Unmarshaler) generateMap(keyType, elemType reflect.Type, mapValue any) 
 
 			targetValue.SetMapIndex(key, innerValue)
 		default:
+			target := reflect.New(dereffedElemType)
 			switch v := keythData.(type) {
 			case bool:
 				if dereffedElemKind != reflect.Bool {
 					return emptyValue, errTypeMismatch
 				}
 
-				targetValue.SetMapIndex(key, reflect.ValueOf(v))
+				target.Elem().SetBool(v)
 			case string:
 				if dereffedElemKind != reflect.String {
 					return emptyValue, errTypeMismatch
 				}
 
-				targetValue.SetMapIndex(key, reflect.ValueOf(v))
+				target.Elem().SetString(v)
 			case json.Number:
-				target := reflect.New(dereffedElemType)
 				if err := setValue(dereffedElemKind, target.Elem(), v.String()); err != nil {
 					return emptyValue, err
 				}
-
-				targetValue.SetMapIndex(key, target.Elem())
 			default:
-				if dereffedElemKind != keythValue.Kind() {
+				if keythData == nil || !reflect.TypeOf(keythData).AssignableTo(dereffedElemType) {
 					return emptyValue, errTypeMismatch
 				}
 
-				targetValue.SetMapIndex(key, keythValue)
+				target.Elem().Set(reflect.ValueOf(keythData))
+			}
+
+			if fieldElemKind == reflect.Ptr {
+				targetValue.SetMapIndex(key, target)
+			} else {
+				targetValue.SetMapIndex(key, target.Elem())
 			}
 		}
 	}
@@ -515,7 +539,13 @@ func (u *Unmarshaler) processFieldNotFromString(fieldType reflect.Type, value re
 	case valueKind == reflect.String && typeKind == reflect.Slice:
 		return u.fillSliceFromString(fieldType, value, mapValue)
 	case valueKind == reflect.String && derefedFieldType == durationType:
-		return fillDurationValue(fieldType.Kind(), value, mapValue.(string))
+		dur, ok := mapValue.(string)
+		if !ok {
+			// json.Number 的 Kind 也是 String：按整数纳秒处理（encoding/json 即如此编码 Duration）
+			return u.processFieldPrimitive(fieldType, value, mapValue, opts, fullName)
+		}
+
+		return fillDurationValue(fieldType.Kind(), value, dur)
 	default:
 		return u.processFieldPrimitive(fieldType, value, mapValue, opts, fullName)
 	}
@@ -653,6 +683,7 @@ func (u *Unmarshaler) processFieldWithEnvValue(fieldType reflect.Type, value ref
 		return err
 	}
 
+	maybeNewValue(fieldType, value)
 	fieldKind := fieldType.Kind()
 	switch fieldKind {
 	case reflect.Bool:
@@ -743,7 +774,7 @@ func (u *Unmarshaler) processNamedFieldWithValue(fieldType reflect.Type, value r
 
 			options := opts.options()
 			if len(options) > 0 {
-				if !stringx.Contains(options, mapValue.(string)) {
+				if !stringx.Contains(options, Repr(mapValue)) {
 					return fmt.Errorf(`错误：字段 "%s" 的值 "%s" 未定义在选项 "%v" 中`,
 						key, vp, options)
 				}
